@@ -29,7 +29,8 @@ LEVEL_TEXT = ("Generated-input search over arbitrary and stopping games with dya
               "order, all-zero successor sets); each decided player state's reported list is compared, order "
               "included, with the exact optimal set; lists are compared between pruning modes. Exploration: the "
               "domain is infinite; the oracle is exact and states it cannot decide are counted, not asserted."
-              ' Added while validating sensitivity: near-gap lotteries (differences 2^-7..2^-16), deep corridors with known exact values, tricky action names.')
+              ' Added while validating sensitivity: near-gap lotteries (differences 2^-7..2^-16), deep corridors with known exact values, tricky action names.'
+              ' Later rounds: lotteries written in decimals whose equal goal mass is reached through different float sums (0.7+0.2+0.1 against 1), solver thresholds that are not powers of ten, empty and pattern-like action names.')
 LEVEL_NOTE = ("Trusted: harness/exact.py; the decidability rule (gap 0 or gap > threshold x (T+1) + rounding unit). "
               "Known finding K1 is matched by signature, never by input.")
 RULE = ("case = game x API (solve() in both modes / Solver with a power-of-ten threshold). Non-trivial = a decided "
